@@ -68,14 +68,18 @@ def quick_runs(prop):
 ###############################################################################
 # shared helpers
 
-def _devices(root):
-    return {'Z:': root + '/z', 'CAS1:': 'CAS:' + root + '/tape.cas', 'LPT1:': 'FILE:' + root + '/lpt.txt'}
+def _tape(root, no=0):
+    return '%s/tape%s.cas' % (root, no or '')
 
 
-def _mk(w, root, sk, **extra):
+def _devices(root, tape=0):
+    return {'Z:': root + '/z', 'CAS1:': 'CAS:' + _tape(root, tape), 'LPT1:': 'FILE:' + root + '/lpt.txt'}
+
+
+def _mk(w, root, sk, tape=0, **extra):
     kw = dict(sk)
     kw.update(extra)
-    return Driver(w, devices=_devices(root), current_device='Z:', **kw)
+    return Driver(w, devices=_devices(root, tape), current_device='Z:', **kw)
 
 
 def _read(path):
@@ -333,6 +337,8 @@ class S15(object):
         self.bound = set()
         self.nrestart = 0
         self.ncrash = 0
+        self.tape = 0
+        self.tape_dirty = False
 
     # -- plumbing -------------------------------------------------------------
 
@@ -340,8 +346,22 @@ class S15(object):
         self.run.violate('C15', sig, detail)
 
     def open_session(self):
-        self.d = _mk(self.w, self.root, self.sk)
+        self.d = _mk(self.w, self.root, self.sk, tape=self.tape)
         self.bound = set()
+
+    def use(self, dev):
+        """Before a transaction on the cassette: if an earlier op left the tape in the middle of a file or
+        with half-written records, put in a fresh tape. (What SAVE over the middle of another file means
+        for later searches is tape semantics the property does not talk about.)"""
+        if dev == 'CAS' and self.tape_dirty:
+            self.tape += 1
+            self.tape_dirty = False
+            self.run.probe('fresh_tape')
+            self.restart()
+            self.resync('tape change')
+        if dev == 'CAS':
+            # dirty until the transaction ends with the tape positioned right behind a file that read back whole
+            self.tape_dirty = True
 
     def restart(self):
         self.d.close()
@@ -364,6 +384,7 @@ class S15(object):
             self.run.violate('C01', 'crash:' + e.signature, 'during C15 history (%s, non-canonical program as ASCII): %s: %s\n%s' % (
                 what, e.exc_type, e.exc_msg, e.tb[-1200:]))
             self.run.probe('crash_unclaimed')
+            self.tape_dirty = True
             try:
                 self.d.close()
             except EngineCrash:
@@ -377,6 +398,7 @@ class S15(object):
         _norm(e)
         self.v('crash:' + e.signature, '%s: %s (during %r)\n%s' % (e.exc_type, e.exc_msg, e.where, e.tb))
         self.run.probe('crash_claimed')
+        self.tape_dirty = True
         self.ncrash += 1
         if self.ncrash > 3:
             raise e
@@ -393,7 +415,7 @@ class S15(object):
             return '%s/z/%s.BAS' % (self.root, nm)
         if dev == '@':
             return '%s/b/%s.BAS' % (self.root, nm)
-        return self.root + '/tape.cas'
+        return _tape(self.root, self.tape)
 
     def bname(self, dev, nm):
         if dev == 'Z':
@@ -582,6 +604,7 @@ class S15(object):
 
     def op_rt(self, op, tag=''):
         fmt, dev, nm = op['fmt'], op['dev'], op['nm']
+        self.use(dev)
         before_img = self.ensure_img()
         if self.start is None:
             return
@@ -604,6 +627,8 @@ class S15(object):
                 return
             ok = self.check_loaded(op, r, before_img, before_list, tag)
         self.run.state('rt', fmt, dev, self.src, ok, op.get('how'), tag, self.size_bucket())
+        if ok is True and dev == 'CAS':
+            self.tape_dirty = False
         if ok is not True or op.get('how') == 'MERGE':
             if ok is not True:
                 self.resync('%s round trip' % fmt)
@@ -612,6 +637,7 @@ class S15(object):
 
     def op_savefault(self, op):
         fmt, dev, nm = op['fmt'], op['dev'], op['nm']
+        self.use(dev)
         before = self.ensure_img()
         if self.start is None:
             return
@@ -644,8 +670,11 @@ class S15(object):
                 return
             self.restart()
             r = self.attempt(self.claimed(fmt), lambda: self.load(dev, nm), 'LOAD of ASCII file')
-            if r is not None and self.check_loaded(op, r, before, before_list, '') is not True:
-                self.resync('round trip')
+            if r is not None:
+                if self.check_loaded(op, r, before, before_list, '') is not True:
+                    self.resync('round trip')
+                elif dev == 'CAS':
+                    self.tape_dirty = False
             return
         st, after = self.snap()
         if after != before:
@@ -667,6 +696,7 @@ class S15(object):
 
     def op_torn(self, op):
         fmt, dev, nm = op['fmt'], op['dev'], op['nm']
+        self.use(dev)
         self.ensure_img()
         if self.start is None:
             return
@@ -694,6 +724,8 @@ class S15(object):
             data = data[:pos] + bytes((data[pos] ^ op['flip'][1],)) + data[pos + 1:]
             what = 'byte %d xor %d' % (pos, op['flip'][1])
         _write(path, data)
+        if dev == 'CAS':
+            self.tape_dirty = True
         self.run.fault('torn-file')
         self.open_session()
         self.nrestart += 1
@@ -731,7 +763,7 @@ class S15(object):
         def both():
             self._converter(t, src, out)
             # the same in a Session: LOAD the file, SAVE in the target format
-            d2 = _mk(self.w, self.root, self.sk)
+            d2 = _mk(self.w, self.root, self.sk, tape=999)
             try:
                 return d2.exec(b'LOAD "Z:CSRC.BAS"'), d2.exec(b'SAVE "Z:CREF.BAS"' + {'B': b'', 'P': b',P', 'A': b',A'}[t])
             finally:
